@@ -1,19 +1,8 @@
 /-
-  Calendar year of a Julian day number (`time::Date::year` of `Date::from_julian_day`),
-  proleptic Gregorian calendar (Richards' algorithm).  The theorems of C06/C17/C09 use the year
-  only through an abstract function `yearOf : Int → Int`; this concrete one is what the driver
-  plugs in, and the harness prints the implementation's own `settlement_date.year()` next to
-  every day so that the driver can check the two agree on every generated day.
+  Calendar year of a Julian day number (`time::Date::year` of `Date::from_julian_day`).
+  The theorems of C06/C17/C09 use the year only through an abstract function `yearOf : Int → Int`;
+  the concrete one the drivers plug in is `Acb.yearOfJd` of `Basic/Date.lean`, and the harness
+  prints the implementation's own `settlement_date.year()` next to every day so that the driver
+  can check the two agree on every generated day.
 -/
-namespace Acb
-
-def yearOfJd (jd : Int) : Int :=
-  let a := jd + 32044
-  let b := (4 * a + 3) / 146097
-  let c := a - 146097 * b / 4
-  let d := (4 * c + 3) / 1461
-  let e := c - 1461 * d / 4
-  let m := (5 * e + 2) / 153
-  100 * b + d - 4800 + m / 10
-
-end Acb
+import AcbModel.Basic.Date
